@@ -65,8 +65,59 @@ def order_cols(bound):
     return idx
 
 
+def attribute(task, res):
+    """Does the difference disappear when the rewrites already listed as known findings are disabled?"""
+    if not task.get('ban'):
+        return
+    cfg = dict(task['cfgobj'])
+    cfg['ban'] = task['ban']
+    try:
+        cat, plans = get_plans(task['ddl'], [task['sql']], [cfg])
+        o = plans[0]['opt'][cfg['name']]
+        if 'plan' in o:
+            t2 = dict(task)
+            t2['opt'] = o['plan']
+            t2['ranges'] = o.get('ranges', [])
+            r2 = tv.solve_pair(t2)
+            res['without_known_bad_rules'] = {'plan': o['plan'], 'verdict': r2['verdict']}
+    except Exception as ex:   # attribution is best-effort; failure means "not attributed"
+        res['without_known_bad_rules'] = {'error': repr(ex)}
+
+
+def optimizer_panic(task):
+    """The real optimizer panicked on this query. It counts against `same answer with the optimizer on and off` only
+    if the unoptimized plan runs: then `on` crashes where `off` answers."""
+    db = {tid: [[(True if c[1] == 'B' else 1) for c in cols if c[1]]] for tid, cols in task['tabs'].items()}
+    res = {'sql': task['sql'], 'cfg': task['cfg'], 'bound': task['bound'], 'opt': '(optimizer panicked at %s)' % task['where'], 'K': 0,
+           'verdict': 'optimizer-panic', 'where': task['where'], 'db': db, 'strmap': {}, 'solver_s': 0.0}
+    ins = []
+    for tid, rows in sorted(db.items()):
+        ins += tv.table_sql(task['names'], tid, rows, {})
+    engine = 'disk' if task['cfg'].startswith('disk') else 'mem'
+    stmts = list(task['ddl']) + ['create table zz_verif_dummy(z int)'] + ins + tv.stats_stmts(task['cfgobj']) + ['pragma disable_optimizer', task['sql'], 'pragma enable_optimizer', task['sql']]
+    (out, rc, err), = tv.run_sql(engine, stmts)
+    qs = [o for o in out if o.get('sql') == task['sql']]
+    off_ok = bool(qs) and qs[0].get('ok') and not qs[0].get('panicked')
+    on_ok = len(qs) == 2 and qs[1].get('ok') and not qs[1].get('panicked')
+    res['replay'] = {'reproduced': (True if (off_ok and not on_ok) else (False if on_ok else None)),
+                     'how': {'engine': engine, 'stmts': stmts, 'optimizer_off': qs[0].get('rows') if off_ok else 'fails', 'optimizer_on': 'ok' if on_ok else 'crash: ' + err[-200:]}}
+    return res
+
+
 def worker(task):
+    if task.get('kind') == 'optimizer-panic':
+        return optimizer_panic(task)
     res = tv.solve_pair(task)
+    if res['verdict'] == 'dangling':
+        # the optimized plan cannot be built: confirm on the real engine with any non-empty database
+        db = {}
+        for tid, cols in task['tabs'].items():
+            db[tid] = [[(True if c[1] == 'B' else 1) for c in cols]]
+        res['db'] = db
+        res['strmap'] = {}
+        res['replay'] = tv.replay_sql(task['ddl'], task['names'], res, task['cfg'], None, cfgobj=task['cfgobj'])
+        attribute(task, res)
+        return res
     if res['verdict'] != 'sat':
         return res
     B = parse(task['bound'])
@@ -76,21 +127,7 @@ def worker(task):
         res['replay'] = replay_unordered_limit(task, res)
     else:
         res['replay'] = tv.replay_sql(task['ddl'], names, res, task['cfg'], ocols, tries=4 if (task['cfg'].startswith('disk') and ocols is not None) else 1, cfgobj=task['cfgobj'], single_insert=bool(task.get('use_ranges')))
-    # attribution: is the difference explained by rewrites already listed as known findings?
-    if task.get('ban'):
-        cfg = dict(task['cfgobj'])
-        cfg['ban'] = task['ban']
-        try:
-            cat, plans = get_plans(task['ddl'], [task['sql']], [cfg])
-            o = plans[0]['opt'][cfg['name']]
-            if 'plan' in o:
-                t2 = dict(task)
-                t2['opt'] = o['plan']
-                t2['ranges'] = o.get('ranges', [])
-                r2 = tv.solve_pair(t2)
-                res['without_known_bad_rules'] = {'plan': o['plan'], 'verdict': r2['verdict']}
-        except Exception as ex:   # attribution is best-effort; failure means "not attributed"
-            res['without_known_bad_rules'] = {'error': repr(ex)}
+    attribute(task, res)
     return res
 
 
@@ -144,9 +181,17 @@ def build_tasks(report, ddl, items, K, thorough, origin, use_ranges=False, only_
             if not o:
                 continue
             if o.get('panic'):
-                key = 'optimizer-panic:' + p['sql']
-                out = report.counterexample(key, 'the optimizer panics on: ' + p['sql'], {'sql': p['sql'], 'ddl': ddl, 'config': cfg}, True)
-                report.obligation(out == 'known')
+                sigp = ('panic', p['sql'], cfg['name'].split('+')[0])
+                if sigp in seen:
+                    continue
+                seen.add(sigp)
+                used = tv.used_tables(bound)
+                tabs, variants, names = tv.enc_tables_from_catalog(cat, used)
+                if tabs is None:
+                    report.skip(p['sql'], 'optimizer panics; view in FROM')
+                    continue
+                tasks.append({'kind': 'optimizer-panic', 'sql': p['sql'], 'where': o.get('where', ''), 'ddl': ddl, 'names': names, 'tabs': tabs,
+                              'cfg': cfg['name'], 'cfgobj': cfg, 'bound': bound, 'opt': '', 'K': 0})
                 continue
             sig = (bound, o['plan'], cfg['name'].split('+')[0])
             if sig in seen:
@@ -173,6 +218,16 @@ def absorb(report, prop, res):
     report.solver(res.get('solver_s', 0.0), 1)
     v = res['verdict']
     desc = '%s [%s]' % (res['sql'], res['cfg'])
+    if v == 'optimizer-panic':
+        rep = res['replay']
+        if rep['reproduced'] is True:
+            report.cov['programs'] += 1
+            report.cov['disagreements_checked'] += 1
+            out = report.counterexample('optimizer-panic@' + res['where'], 'the optimizer panics (at %s) on a query whose unoptimized plan runs: %s' % (res['where'], res['sql']), res, True)
+            report.obligation(out == 'known')
+        else:
+            report.skip(desc, 'the optimizer panics at %s and the unoptimized plan is not executable either: nothing to compare (plan well-formedness is C17, not claimed)' % res['where'])
+        return
     if v == 'skip':
         report.skip(desc, res['why'])
         return
@@ -181,8 +236,17 @@ def absorb(report, prop, res):
         return
     report.cov['programs'] += 1
     if v == 'dangling':
-        key = 'query-dangling:' + res['sql']
-        out = report.counterexample(key, res['why'] + ' in the optimized plan of: ' + res['sql'], res, None)
+        rep = res.get('replay', {'reproduced': None})
+        report.cov['disagreements_checked'] += 1
+        attributed = res.get('without_known_bad_rules', {}).get('verdict') == 'unsat'
+        what = res['why'] + ' in the optimized plan of: ' + res['sql']
+        if attributed and rep['reproduced'] is not False and report.findings.lookup(prop, 'query:explained-by-known-unsound-rewrites'):
+            report.cov['attributed_to_known_rules'] = report.cov.get('attributed_to_known_rules', 0) + 1
+            report.counterexample('query:explained-by-known-unsound-rewrites', what, res, rep['reproduced'])
+            report.obligation(True)
+            return
+        key = 'query-dangling:%s|%s' % (res['cfg'].split('+')[0], res['sql'])
+        out = report.counterexample(key, what, res, rep['reproduced'])
         report.obligation(out == 'known')
         return
     report.cov['vacuity_witnesses'] += 1
